@@ -234,6 +234,10 @@ func pure(e ast.Expr) bool {
 		return pure(x.X)
 	case *ast.StarExpr:
 		return pure(x.X)
+	case *ast.IndexExpr:
+		return pure(x.X) && pure(x.Index)
+	case *ast.BasicLit:
+		return true
 	}
 	return false
 }
